@@ -47,6 +47,7 @@ def run(ctx):
     unsafe_inventory(ctx, fb, T)
     mut_unique(ctx, fb)
     unchecked_offset(ctx, fb, T)
+    dyn_rank(ctx, fb, T)
     import C07
     C07.dei(ctx, fb, 'C06.mut-unique-DEI')
 
@@ -272,3 +273,59 @@ def unchecked_offset(ctx, fb, T):
                 ctx.inst(R, key, r is not None, ('reviewed: ' + r) if r else
                          'safe function calls offset_unchecked without an index_valid() test: an out-of-range index yields an offset outside the view (or inside another view of the same storage)', c.loc())
     ctx.floor(R, 'callers of offset_unchecked', n, 6)
+
+
+
+def dyn_rank(ctx, fb, T):
+    """DynLayout keeps shape and strides in ONE array and derives the rank from its length (ndim = len / 2): every bounds /
+    overlap argument about a DynLayout assumes the two halves have equal length.  (param-constructor) the one constructor
+    that receives the halves as two independent caller slices checks len(shape) == len(strides) before building the
+    array; (sites) every other place that builds a DynLayout is in a reviewed table with the reason the halves match;
+    (paired-mutation) methods that change the array's length in place insert / remove in pairs."""
+    R = 'C06.dyn-rank'
+    DL = 'rten_tensor::layout::DynLayout'
+    aggs = aggregates_of(fb, DL, crates=['rten_tensor'])
+    ctx.floor(R, 'DynLayout construction sites', len(aggs), 8)
+    outside = [a for a in aggregates_of(fb, DL) if a[0].crate != 'rten_tensor'] if hasattr(aggs[0][0], 'crate') else []
+    reviewed = T.get('dyn_layout_sites', {})
+    seen = set()
+    for (f, bb, st, rv) in aggs:
+        if f.path in seen:
+            continue
+        seen.add(f.path)
+        short = f.path.replace('rten_tensor::layout::', '')
+        if f.path.endswith('MutLayout>::from_shape_and_strides'):
+            # both caller slices flow into the array: their lengths must be compared first
+            ok = False
+            for g in f.guards(bb):
+                c, t = unwrap_not(g.cond(), g.truth())
+                if c[0] == 'cmp' and ((c[1] == 'Eq' and t is True) or (c[1] == 'Ne' and t is False)):
+                    oa, ob = f.origins(c[2]), f.origins(c[3])
+                    pa = {o[1] for o in oa if o[0] == 'param'} | {o[1] for o in ob if o[0] == 'param'}
+                    lens = any(x[0] in ('len', 'ptrmeta') or (x[0] == 'call' and re.search(r'::len$', x[1] or '')) for x in (oa | ob))
+                    if {0, 1} <= pa:
+                        ok = True
+            ctx.inst(R, 'param-constructor:' + short, ok, 'the array is built from the caller\'s shape and strides only after their lengths compared equal' if ok else
+                     'shape and strides of different lengths are concatenated unchecked: the rank is then (len(shape)+len(strides))/2 and the bounds/overlap checks validate a layout other than the one later indexed (out-of-bounds read through the safe API after remove_axis)', f.loc())
+        else:
+            r = reviewed.get(f.path)
+            ctx.inst(R, 'site:' + short, r is not None, ('reviewed: ' + r) if r else 'DynLayout built at an unreviewed site: it must be shown that both halves of shape_and_strides have the same length', f.loc())
+    for k in reviewed:
+        if k not in seen:
+            ctx.note('C06.dyn-rank: reviewed-table entry no longer matches a construction site: ' + k)
+    # in-place length changes come in pairs
+    n = 0
+    for f in fb.fns(crate='rten_tensor'):
+        if not f.has_mir() or 'DynLayout' not in f.path:
+            continue
+        ins = [c for c in f.calls() if re.search(r'SmallVec::<A>::insert$', c.callee or '')]
+        rem = [c for c in f.calls() if re.search(r'SmallVec::<A>::remove$', c.callee or '')]
+        oth = [c for c in f.calls() if re.search(r'SmallVec::<A>::(push|pop|truncate|clear|drain|swap_remove|retain|insert_many|append)$', c.callee or '')]
+        if not (ins or rem or oth):
+            continue
+        n += 1
+        ok = len(ins) % 2 == 0 and len(rem) % 2 == 0 and not oth
+        ctx.inst(R, 'paired-mutation:' + f.path.replace('rten_tensor::layout::', ''), ok,
+                 'changes the array length by %d insert(s) and %d remove(s): shape and stride halves stay the same length' % (len(ins), len(rem)) if ok else
+                 'changes the length of shape_and_strides by an odd number of elements (%d insert, %d remove, %d other): the halves no longer match' % (len(ins), len(rem), len(oth)), f.loc())
+    ctx.floor(R, 'DynLayout methods changing the array length in place', n, 3)
